@@ -2081,7 +2081,28 @@ def _seq_function(repo, mod, fname):
     return body[k:]
 
 
+# the constructors of the four classes: which generator they call, with which arguments in which order (DiskRevolve and
+# PeriodicDiskRevolve hand (wd, rd) to parameters named (rd, wd): RevConv.sequence mirrors exactly that), and the default costs
+REV_CTORS = {
+    "RevolveCheckpointSchedule": ("self, max_n, snapshots_in_ram, snapshots_on_disk, schedule",
+                                  "super().__init__(max_n)\nassert snapshots_in_ram >= min(1, max_n - 1)\nassert max_n > 0\nself._exhausted = False\n"
+                                  "self._snapshots_on_disk = snapshots_on_disk\nself._snapshots_in_ram = snapshots_in_ram\nself._schedule = schedule"),
+    "Revolve": ("self, max_n, snapshots_in_ram, uf=1, ub=1, wd=2, rd=2",
+                "schedule = list(revolve(max_n - 1, snapshots_in_ram, wd, rd, uf, ub))\nsuper().__init__(max_n, snapshots_in_ram, 0, schedule)"),
+    "DiskRevolve": ("self, max_n, snapshots_in_ram, uf=1, ub=1, wd=2, rd=2",
+                    "schedule = list(disk_revolve(max_n - 1, snapshots_in_ram, wd, rd, uf, ub))\nsuper().__init__(max_n, snapshots_in_ram, None, schedule)"),
+    "PeriodicDiskRevolve": ("self, max_n, snapshots_in_ram, uf=1, ub=1, wd=2, rd=2",
+                            "schedule = list(periodic_disk_revolve(max_n - 1, snapshots_in_ram, wd, rd, uf, ub))\nsuper().__init__(max_n, snapshots_in_ram, None, schedule)"),
+}
+
+
 def _check_seq_env(repo):
+    cl = ast.parse(open(os.path.join(repo, "checkpoint_schedules", "hrevolve.py")).read())
+    for cname, (args, body) in REV_CTORS.items():
+        cs_ = [c for c in cl.body if isinstance(c, ast.ClassDef) and c.name == cname]
+        init = _methods(cs_[0]).get("__init__") if len(cs_) == 1 else None
+        if init is None or init.decorator_list or ast.unparse(init.args) != args or "\n".join(ast.unparse(x) for x in _strip_doc(init.body)) != body:
+            raise Untranslatable("%s.__init__ is not the constructor the model mirrors" % cname)
     ut = ast.parse(open(os.path.join(repo, "checkpoint_schedules", "hrevolve_sequences", "utils.py")).read())
     rp = [n for n in ut.body if isinstance(n, ast.FunctionDef) and n.name == "revolver_parameters"]
     if len(rp) != 1 or (ast.unparse(rp[0].args), "\n".join(ast.unparse(x) for x in _strip_doc(rp[0].body))) != REVOLVER_PARAMETERS:
@@ -2769,6 +2790,82 @@ def _gen_pins(name):
 
 for _n in PINS:
     GENERATORS[_n] = _gen_pins(_n)
+
+
+# ---- basic_functions.py: argmin(list) -- used on lists of numbers and on lists of float costs that may be infinite: rendered once, over
+# any element type with its `<=` ----
+class ArgminTr:
+    def __init__(self):
+        self.n = 0
+        self.state = []          # the variables assigned before the loop, in order: the loop threads them
+
+    def fresh(self):
+        self.n += 1
+        return "x%d_" % self.n
+
+    def elem(self, e, binds):
+        """list[i] -> a bound variable"""
+        if isinstance(e, ast.Subscript) and isinstance(e.value, ast.Name) and e.value.id == "list":
+            i = e.slice
+            ix = str(i.value) if isinstance(i, ast.Constant) and type(i.value) is int else (i.id if isinstance(i, ast.Name) and i.id == "i" else None)
+            if ix is not None:
+                x = self.fresh()
+                binds.append("do %s <- geti A list %s;" % (x, ix))
+                return x
+        raise Untranslatable("element expression " + ast.dump(e)[:80])
+
+    def block(self, stmts, k, inloop):
+        if not stmts:
+            return k
+        s, rest = stmts[0], stmts[1:]
+        if isinstance(s, ast.Assign) and len(s.targets) == 1 and isinstance(s.targets[0], ast.Name):
+            x = s.targets[0].id
+            if not inloop and x not in self.state:
+                self.state.append(x)
+            if x not in self.state:
+                raise Untranslatable("assignment to " + x)
+            if isinstance(s.value, ast.Constant) and type(s.value.value) is int:
+                return "let %s := %d in %s" % (x, s.value.value, self.block(rest, k, inloop))
+            if isinstance(s.value, ast.Name) and s.value.id == "i" and inloop:
+                return "let %s := i in %s" % (x, self.block(rest, k, inloop))
+            binds = []
+            v = self.elem(s.value, binds)
+            if not inloop:
+                return "do %s <- geti A list %s; %s" % (x, binds[0].split()[-1].rstrip(";"), self.block(rest, k, inloop))
+            return " ".join(binds + ["let %s := %s in" % (x, v), self.block(rest, k, inloop)])
+        if isinstance(s, ast.For) and not s.orelse and not inloop and ast.unparse(s.target) == "(i, _)" and ast.unparse(s.iter) == "enumerate(list)" and len(self.state) == 2:
+            a, b = self.state
+            body = self.block(s.body, "Ok (%s, %s)" % (a, b), True)
+            unpack = "let %s := fst st_ in let %s := snd st_ in" % (a, b)
+            return "do st_ <- for_ 0 (length list) (%s, %s) (fun i st_ => %s %s); %s %s" % (a, b, unpack, body, unpack, self.block(rest, k, inloop))
+        if isinstance(s, ast.If) and not s.orelse and inloop and isinstance(s.test, ast.Compare) and len(s.test.ops) == 1 and isinstance(s.test.ops[0], ast.LtE) \
+                and isinstance(s.test.comparators[0], ast.Name) and s.test.comparators[0].id in self.state:
+            binds = []
+            x = self.elem(s.test.left, binds)
+            kk = self.block(rest, k, inloop)
+            return " ".join(binds + ["if le %s %s then (%s) else (%s)" % (x, s.test.comparators[0].id, self.block(s.body, kk, inloop), kk)])
+        if isinstance(s, ast.Return) and not inloop and not rest and isinstance(s.value, ast.BinOp) and isinstance(s.value.op, ast.Add) and ast.unparse(s.value.left) == "1" \
+                and isinstance(s.value.right, ast.Name) and s.value.right.id in self.state:
+            return "Ok (1 + %s)" % s.value.right.id
+        raise Untranslatable("statement " + ast.dump(s)[:100])
+
+
+def gen_argmin(repo):
+    tree = ast.parse(open(os.path.join(repo, "checkpoint_schedules", "hrevolve_sequences", "basic_functions.py")).read())
+    fns = [n for n in tree.body if isinstance(n, ast.FunctionDef) and n.name == "argmin"]
+    if len(fns) != 1 or fns[0].decorator_list or ast.unparse(fns[0].args) != "list":
+        raise Untranslatable("def argmin(list)")
+    t = ArgminTr().block(_strip_doc(fns[0].body), None, False)
+    return "\n".join(["(* GENERATED by harness/translate.py from checkpoint_schedules/hrevolve_sequences/basic_functions.py (argmin) -- do not edit *)",
+                      "From Coq Require Import ZArith List Bool.", "From CS Require Import Actions Ops RevSeq HRevSeq SeqGenSpec HSeqGenSpec ArgminGenSpec.", "Import ListNotations.", "Open Scope Z_scope.", "",
+                      "Section ARGMIN.", "Variable A : Type.", "Variable le : A -> A -> bool.",
+                      "Definition argmin_gen (list : list A) : res Z :=", "  " + t + ".", "End ARGMIN.", "",
+                      "Lemma argmin_gen_is_shape : argmin_gen = argmin_shape.", "Proof. reflexivity. Qed.",
+                      "Lemma argmin_gen_is_model : forall l, argmin_gen Z Z.leb l = py_argmin l.", "Proof. rewrite argmin_gen_is_shape. exact argmin_shape_is_model. Qed.",
+                      "Lemma cargmin_gen_is_model : forall l, argmin_gen cost cle l = py_cargmin l.", "Proof. rewrite argmin_gen_is_shape. exact cargmin_shape_is_model. Qed.", ""]) + "\n"
+
+
+GENERATORS["ArgminGen"] = gen_argmin
 
 
 def gen_seq(repo):
